@@ -102,7 +102,7 @@ def check_fixpoint(ctx, name, run, table, case, total_fn=None):
             return
 
 
-def one(ctx, name, cfg, f, decider, do_model=True, total_fn=None, label=""):
+def one(ctx, name, cfg, f, decider, do_model=True, total_fn=None, label="", strategy=None):
     tc = strat.testcase_from_fields("line", f)
     table = {}
 
@@ -113,7 +113,7 @@ def one(ctx, name, cfg, f, decider, do_model=True, total_fn=None, label=""):
         table[c] = v
         return v
 
-    run = strat.run_real(name, cfg, tc, dec, max_tests=20000)
+    run = strat.run_real(name, cfg, tc, dec, max_tests=20000, strategy=strategy)
     case = dict(strategy=name, cfg=cfg, parts=enc_list(f[1]), reducible=enc_bools(f[2]),
                 verdicts="".join("1" if v else "0" for v in run.verdicts[:200]), label=label)
     if do_model:
@@ -162,7 +162,9 @@ def families(ctx, reps, do_model=True):
             n = rng.choice([3, 4, 5, 6, 8, 11, 16, 24])
             pool = rng.choice([ATOMS, [b"{", b"}", b"(", b")", b"x", b"y"], [b"f(a){", b"b;", b"};", b"x;", b"[1]=", b"2;"],
                                # atoms that are not valid UTF-8 on their own (latin-1 text, a multi-byte character cut by --char)
-                               [b"{\n", b"}\n", b"\xe9\n", b"K\xff\n", b"\xc3", b"\xa9", b"x\n"]])
+                               [b"{\n", b"}\n", b"\xe9\n", b"K\xff\n", b"\xc3", b"\xa9", b"x\n"],
+                               # brackets inside quotes and comments are brackets (the strategy counts bytes, it does not parse)
+                               [b'log("{");\n', b'log("}");\n', b"o\n", b"use(o);\n", b"'('\n", b"// )\n"]])
             parts = [rng.choice(pool) for _ in range(n)]
             # minimize-around also on testcases with non-reducible parts between the atoms (as --js / --attrs produce)
             red = [rng.random() < 0.75 for _ in range(n)] if (name == "minimize-around" and rng.random() < 0.4) else [True] * n
@@ -342,6 +344,24 @@ def cli_runs(ctx):
         os.chdir(cwd)
 
 
+def reused_strategy(ctx, reps):
+    """ONE strategy object used for several reductions in a row (a driver that keeps its strategy; the same file again, as
+    in a re-run after the test was fixed): every one of them ends at the fixpoint"""
+    rng = ctx.rng
+    for name in ("minimize-around", "minimize-balanced"):
+        for cfg in CFGS:
+            for _ in range(reps):
+                st = strat.make_strategy(name, cfg)
+                pool = rng.choice([[b"{\n", b"}\n", b"o\n"], [b"x\n", b"o\n", b"y\n"], [b"(\n", b"o\n", b")\n", b"o\n"]])
+                n = rng.randrange(4, 9)
+                parts = [rng.choice(pool) for _ in range(n)]
+                f = (b"", parts, [True] * n, b"")
+                fn = rng.choice([lambda c: c.count(b"{") == c.count(b"}") and c.count(b"(") == c.count(b")"), lambda c: b"o" in c,
+                                 lambda c: len(c) % 4 == 0])
+                for turn in range(3):
+                    one(ctx, name, cfg, f, lambda k_, c, fn=fn: fn(c), do_model=False, total_fn=fn, label=f"reused-strategy:{turn}", strategy=st)
+
+
 def search(ctx):
     cli_runs(ctx)
     move_runs(ctx, 60)
@@ -360,6 +380,7 @@ def run(ctx) -> int:
     repeats(ctx, 12000 if ctx.thorough else 1500)
     move_runs(ctx, 120 if ctx.thorough else 30)
     cli_runs(ctx)
+    reused_strategy(ctx, 12 if ctx.thorough else 4)
     return common.decide(ctx, proof, RULE, search=search,
                          assumptions=["the fixpoint clauses are checked by the monitor on the real code and tied to the Lean models of the two passes by "
                                       "proposal-by-proposal correspondence; the Lean theorems cover the passes' bookkeeping (see DESIGN.md §4 C13)"])
